@@ -1,0 +1,45 @@
+//go:build verif
+
+// Read-only exports for the verification harness in /verif (property C13). This
+// file is only compiled with -tags verif; it adds no behaviour and touches no
+// existing code.
+
+package fox
+
+import (
+	"reflect"
+	"unsafe"
+)
+
+// VerifMw describes one entry of a middleware slice (Router.mws or Route.mws).
+type VerifMw struct {
+	Scope  HandlerScope
+	Global bool
+	PC     uintptr // code pointer of the MiddlewareFunc; closures of one function literal share it
+}
+
+// VerifMws is a dump of a middleware slice together with its slice header.
+type VerifMws struct {
+	Entries []VerifMw
+	Len     int
+	Cap     int
+	Data    uintptr // identity of the backing array (0 for a nil slice)
+}
+
+func verifMws(s []middleware) VerifMws {
+	v := VerifMws{Len: len(s), Cap: cap(s), Data: uintptr(unsafe.Pointer(unsafe.SliceData(s)))}
+	for _, m := range s {
+		var pc uintptr
+		if m.m != nil {
+			pc = reflect.ValueOf(m.m).Pointer()
+		}
+		v.Entries = append(v.Entries, VerifMw{Scope: m.scope, Global: m.g, PC: pc})
+	}
+	return v
+}
+
+// VerifRouterMws dumps the router-wide middleware slice.
+func VerifRouterMws(fox *Router) VerifMws { return verifMws(fox.mws) }
+
+// VerifRouteMws dumps the middleware slice a route was composed from.
+func VerifRouteMws(r *Route) VerifMws { return verifMws(r.mws) }
